@@ -15,7 +15,7 @@ def run(ctx):
         for j, alive in enumerate([4, 16, 64] if q else [2, 4, 8, 16, 32, 64, 128]):
             for rep in range(1 if q else 3):
                 n = (1200 if q else 12000) // (3 if hb else 1)
-                cmd = [exe, "--threads", str(n), "--alive", str(alive), "--races", str(120 if q else 2500), "--foreign", str(60 if q else 1000), "--unref-races", str(600 if q else 20000), "--seed", str(sd * 100 + j * 10 + rep)]
+                cmd = [exe, "--threads", str(n), "--alive", str(alive), "--races", str(120 if q else 2500), "--foreign", str(60 if q else 1000), "--unref-races", str(600 if q else 20000), "--tls-histories", str(150 if q else 3000), "--seed", str(sd * 100 + j * 10 + rep)]
                 if rep % 2 == 1:
                     cmd.append("--no-delays")
                 job = dict(cmd=cmd, variant=variant, tag="%s alive%d rep%d" % (variant, alive, rep), san_ctx="thread", hang_is_violation=True, hang_key="symptom=hang (join or thread start never completed)")
@@ -39,9 +39,9 @@ def run(ctx):
             for fn in glob.glob(job["tsan_log"] + ".*"):
                 os.unlink(fn)
     cov = ctx.coverage
-    cov["evaluations"] = tot.get("threads", 0) + tot.get("first_use_races", 0) + tot.get("foreign_threads", 0)
-    cov["distinct_nontrivial"] = tot.get("handles_freed_by_harness_unref", 0) + tot.get("handles_freed_at_thread_exit", 0) + tot.get("first_use_races", 0)
-    cov["rule"] = ("evaluations = threads created (35% detached, random exit codes incl. INT_MIN/INT_MAX, p_uthread_exit or plain return, 0-2 extra ref/unref pairs, join before or after unrefs) + TLS first-use races + foreign threads. "
+    cov["evaluations"] = tot.get("threads", 0) + tot.get("first_use_races", 0) + tot.get("foreign_threads", 0) + tot.get("tls_history_threads", 0)
+    cov["distinct_nontrivial"] = tot.get("handles_freed_by_harness_unref", 0) + tot.get("handles_freed_at_thread_exit", 0) + tot.get("first_use_races", 0) + tot.get("tls_history_threads", 0)
+    cov["rule"] = ("evaluations = threads created (35% detached, random exit codes incl. INT_MIN/INT_MAX, p_uthread_exit or plain return, 0-2 extra ref/unref pairs, join before or after unrefs) + TLS first-use races + foreign threads + threads running a random TLS history (48 set/replace/get operations with fresh values or NULL over 4 keys, two of them without notifier, in joinable, detached and foreign threads, checked against a per-thread slot model: notifier runs exactly once per value replaced or left at exit, never for set_local, never with NULL). "
                    "distinct_nontrivial = handle blocks whose free event was observed and checked against the shadow reference count and finished flag (classified by who performed the last unref) + first-use races; "
                    "every thread has a distinct PRNG draw of (joinable, code, work time, extra refs, unref order, injected start/creator delay).")
     cov["totals"] = tot
@@ -50,6 +50,8 @@ def run(ctx):
     ctx.sample({"thread": "joinable, p_uthread_exit(INT_MIN), 2 extra refs, join, payload check, unrefs -> handle freed by the harness's last unref"})
     if tot.get("handles_freed_by_harness_unref", 0) < 20 or tot.get("handles_freed_at_thread_exit", 0) < 20:
         raise core.Inconclusive("both release orders were not observed: %s" % tot)
+    if tot.get("tls_replace_on_empty_slot", 0) < 20 or tot.get("tls_replace_with_null", 0) < 20:
+        raise core.Inconclusive("TLS histories did not reach replace on an empty slot / replace with NULL: %s" % tot)
     if tot.get("delayed_thread_starts", 0) < 10:
         raise core.Inconclusive("delay injection did not fire")
     ctx.assumptions += ["the tracking allocator (its lock orders alloc/free pairs) is not installed in TSan builds; exactly-once accounting runs in the asan/plain builds of the same workload",
